@@ -73,6 +73,11 @@ static CHILD_WATCHDOG: std::sync::Once = std::sync::Once::new();
 /// Run a command with a wall-clock limit. `None` = it had to be killed.
 /// The worker blocks in `wait_with_output`; one watchdog thread kills overdue children.
 pub fn output_with_timeout(cmd: &mut std::process::Command, secs: u64) -> std::io::Result<Option<std::process::Output>> {
+    output_with_timeout_stdin(cmd, secs, None)
+}
+
+/// The same with bytes fed to the child's standard input (a pipe, closed after the last byte).
+pub fn output_with_timeout_stdin(cmd: &mut std::process::Command, secs: u64, stdin: Option<&[u8]>) -> std::io::Result<Option<std::process::Output>> {
     CHILD_WATCHDOG.call_once(|| {
         std::thread::spawn(|| loop {
             std::thread::sleep(std::time::Duration::from_millis(200));
@@ -91,7 +96,12 @@ pub fn output_with_timeout(cmd: &mut std::process::Command, secs: u64) -> std::i
             }
         });
     });
-    let child = cmd.stdin(std::process::Stdio::null()).stdout(std::process::Stdio::piped()).stderr(std::process::Stdio::piped()).spawn()?;
+    let mut child = cmd.stdin(if stdin.is_some() { std::process::Stdio::piped() } else { std::process::Stdio::null() }).stdout(std::process::Stdio::piped()).stderr(std::process::Stdio::piped()).spawn()?;
+    if let (Some(data), Some(mut pipe)) = (stdin, child.stdin.take()) {
+        use std::io::Write;
+        let _ = pipe.write_all(data);
+        // dropping the handle closes the pipe: the child sees end of input
+    }
     let pid = child.id();
     CHILDREN.lock().unwrap().get_or_insert_with(Default::default).insert(pid, (std::time::Instant::now() + std::time::Duration::from_secs(secs), false));
     let out = child.wait_with_output();
